@@ -35,6 +35,7 @@ type ClientPlan struct {
 	StartAfterMs      int       `json:"start_after_ms,omitempty"`     // start this many fake ms after the workload began
 	Slow              bool      `json:"slow,omitempty"`
 	NeverRead         bool      `json:"never_read,omitempty"`
+	TailAfterAnswered int       `json:"tail_after_answered,omitempty"` // the last N requests are only sent once the backends have answered all earlier ones
 	ReadAfterMs       int       `json:"read_after_ms,omitempty"` // the client does not read for this long after connecting (its socket fills), then reads
 	CloseAfterSent    int       `json:"close_after_sent"`    // bytes; -1 never
 	CloseAfterReplies int       `json:"close_after_replies"` // -1 never
